@@ -252,9 +252,17 @@ func runCheck(o checkOpts) int {
 		ms = 60000
 		all = true
 	}
+	known := loadKnown()
+	for _, ob := range obs {
+		for i := range known.Findings {
+			k := &known.Findings[i]
+			if k.Property == id && k.Obligation == ob.Name && k.Status == "open" {
+				ob.Quick = true // a listed finding is expected not to discharge: do not wait long for it
+			}
+		}
+	}
 	dischargeAll(obs, scratch, ms, all, runtime.NumCPU()/2+1)
 
-	known := loadKnown()
 	isKnown := func(name string) *KnownFinding {
 		for i := range known.Findings {
 			k := &known.Findings[i]
